@@ -145,6 +145,43 @@ Theorem C02_rule_iff_no_unused_variables : forall S W,
 Proof. exact no_unused_variables_iff. Qed.
 Print Assumptions C02_rule_iff_no_unused_variables.
 
+Theorem C02_rule_iff_variables_are_input_types : forall S W,
+  rule_variables_are_input_types S W <> [] <-> Violates_variables_are_input_types S W.
+Proof. exact variables_are_input_types_iff. Qed.
+Print Assumptions C02_rule_iff_variables_are_input_types.
+
+Theorem C02_rule_iff_possible_fragment_spreads : forall S W,
+  rule_possible_fragment_spreads S W <> [] <-> Violates_possible_fragment_spreads S W.
+Proof. exact possible_fragment_spreads_iff. Qed.
+Print Assumptions C02_rule_iff_possible_fragment_spreads.
+
+Theorem C02_rule_iff_arguments_of_correct_type : forall S W,
+  rule_arguments_of_correct_type S W <> [] <-> Violates_arguments_of_correct_type S W.
+Proof. exact arguments_of_correct_type_iff. Qed.
+Print Assumptions C02_rule_iff_arguments_of_correct_type.
+
+Theorem C02_rule_located_arguments_of_correct_type : forall S W x,
+  In x (rule_arguments_of_correct_type S W) ->
+  exists ow ad a, In (IArg ow (Some ad) a) (doc_items S W) /\ vlit S (wa_val a) (a_type ad) = false /\
+                  wv_id (wa_val a) = x.
+Proof. exact arguments_of_correct_type_located. Qed.
+Print Assumptions C02_rule_located_arguments_of_correct_type.
+
+Theorem C02_rule_iff_default_values_of_correct_type : forall S W,
+  rule_default_values_of_correct_type S W <> [] <-> Violates_default_values_of_correct_type S W.
+Proof. exact default_values_of_correct_type_iff. Qed.
+Print Assumptions C02_rule_iff_default_values_of_correct_type.
+
+Theorem C02_rule_iff_variables_in_allowed_position : forall S W,
+  rule_variables_in_allowed_position S W <> [] <-> Violates_variables_in_allowed_position S W.
+Proof. exact variables_in_allowed_position_iff. Qed.
+Print Assumptions C02_rule_iff_variables_in_allowed_position.
+
+Theorem C02_rule_iff_fragments_on_composite_types : forall S W,
+  rule_fragments_on_composite S W <> [] <-> Violates_fragments_on_composite S W.
+Proof. exact fragments_on_composite_iff. Qed.
+Print Assumptions C02_rule_iff_fragments_on_composite_types.
+
 (* ---- non-vacuity ---- *)
 Definition exS : schema :=
   {| s_types := [("String", TScalar SString);
